@@ -20,6 +20,12 @@ CHECKS = {
                 text="Per base list all permutations (<=4 samples) and five duplication patterns are generated and compared canonically.", note=TB, ref="4 C07"),
     "C08": dict(category="exploration", technique="runtime monitoring: normal-form predicate on the IR at the generate()/merge_models() boundary, second-pass no-op monitor, ast scan of emitted annotation source",
                 text="Exhaustive over multisets of <=2 (thorough: <=3) values from a 40-value universe in one field, plus random inputs.", note=TB, ref="4 C08"),
+    "C09": dict(category="exploration", technique="runtime monitoring: first-match oracle on generate() results, resolve-soundness oracle over the accepted-string corpus (all subsets), disabled-type monitor, parse/render/parse monitor",
+                text="Grammar-generated strings x ordered sub-registries (quick 200, thorough all 1957); resolve() exhaustively over subsets of each registry.", note=TB, ref="4 C09"),
+    "C10": dict(category="exploration", technique="runtime monitoring: evaluated annotations of the loaded emitted module compared with the documented literal rule and the observed plain strings",
+                text="Sets of 0-17 hostile strings around every boundary x max_literals 0..17 x frameworks x positions.", note=TB, ref="4 C10"),
+    "C11": dict(category="exploration", technique="runtime monitoring: framework field tables (alias / metadata) of the loaded module checked for injectivity and exact recovery of every key; class-name census",
+                text="Key-style and random hostile keys in the documented domain x unicode option x 4 frameworks; out-of-domain finding probes.", note=TB, ref="4 C11"),
 }
 NOT_YET = {}
 props = [json.loads(l) for l in open(os.path.join(HERE, "properties.jsonl"))]
